@@ -189,6 +189,16 @@ def main():
                     for vv in res.get("violations", []):
                         vv["order"] = list(order[fu]) + [vv["index"]]
                     merge(total, res)
+                if cut is not None and all(f2.done() for f2, o2 in order.items() if o2 <= cut) and all(
+                    f2.done() for f2, (k2, _) in futs.items() if k2 == "known"
+                ):
+                    # everything up to the first violating job is in: the rest is not needed
+                    for pr in list(getattr(pool, "_processes", {}).values()):
+                        try:
+                            pr.kill()
+                        except Exception:
+                            pass
+                    break
                     merge(total_by_sub.setdefault(info, {}), {k: v for k, v in res.items() if k in ("runs", "runs_with_death", "runs_with_relevant_death", "outcomes", "faults_fired", "known", "sweep_points", "sweep_workloads")})
         else:
             # time-boxed: keep every OS worker busy until the budget is used, part shares by wall time
@@ -421,6 +431,11 @@ def do_replay(prop, repo, path):
 
 
 if __name__ == "__main__":
+    import shutil
+    import tempfile
+
+    _root = tempfile.mkdtemp(prefix="gaftools-verif-", dir="/dev/shm" if os.path.isdir("/dev/shm") and os.access("/dev/shm", os.W_OK) else None)
+    os.environ["VERIF_SCRATCH_ROOT"] = _root
     try:
         rc = main()
     except SystemExit:
@@ -429,5 +444,7 @@ if __name__ == "__main__":
         traceback.print_exc()
         print("HARNESS-ERROR unexpected exception in check.py")
         rc = 2
+    finally:
+        shutil.rmtree(_root, ignore_errors=True)
     sys.stdout.flush()
     sys.exit(rc)
